@@ -11,6 +11,15 @@ TRUST = ("Trusted base: go/types, go/ssa and the VTA/CHA call graphs of golang.o
 
 # id -> (technique, claim text, design_ref)
 CLAIMED = {
+ "C16": ("SSA guard dominance on the Decimal constructors and SetString; half-plane normalisation of sanity()'s guards",
+         "Decides the two rejection clauses of the property: constructors succeed only after sanity() and sanity's guards cover the complement of 0 <= scale <= precision <= 38; SetString succeeds only if the fraction fits the scale and the digits parsed. The format/parse round trip and all digit arithmetic are value-level and are not decided (two seeded arithmetic changes are, by design, not detected).",
+         "DESIGN.md §3 C16"),
+ "C18": ("E-OWN who-may-use rules for the id counter, the sync.Pool and the Name fields; SSA dominance and must-pass-through on Release/Acquire",
+         "Decides the three structural premises from which uniqueness among holders follows together with the documented semantics of sync.Pool and atomic addition: ids are the result of a single atomic add, an id is put back at most once per holder (guarded, then cleared), and a name's text and id come from one Get with the Name fields written nowhere else. Linearizability over schedules is not explored.",
+         "DESIGN.md §3 C18"),
+ "C19": ("finite-domain abstract evaluation (E-ABS) of VersionRange.contains over its 64 abstract inputs against the property's table; SSA loop-exit and dominance rules on SetCapabilities, Has and the default comparer",
+         "Decides range membership completely over the finite abstraction (the inputs are used only through emptiness tests and comparer outcomes, which is itself checked), that SetCapabilities reports a capability exactly on the containing edge, ends the range loop early only for a containing range (order independence), turns inverted/zero-width ranges and comparer failures into errors, that Has defaults to false, and that the default comparer never answers for an unparsed version. The third-party semantic-version parser is trusted.",
+         "DESIGN.md §3 C19"),
  "C09": ("SSA taint analysis (E-TAINT, inter-procedural inside package tds, field- and container-based) with an enumerated sink whitelist; E-CONST case-set comparison; dominance rules on the OAEP call and key generation",
          "Decides the universally quantified absence of flow: every use of the account password and of every remote-server password in package tds is enumerated and must end in rsaEncrypt's OAEP message (nonce first, SHA-1, crypto/rand), in the plain-mode password slot (dominated by config.Encrypt being none of the four encrypted ids) or in the first remote-server entry; anything else (error texts, logs, buffers, other fields) is reported with its flow path. Also decides the OAEP parameters, the 32 random bytes of the session key, agreement of pack and Login on the encrypted ids, and per-iteration freshness of the parameter objects. Cryptographic strength is not decided.",
          "DESIGN.md §3 C09"),
